@@ -74,7 +74,7 @@ CHECKS = {
               "prefix the state channel holds the spec state and the TID channel the TID exactly while running, cooling or "
               "warming, and those are the Paraver records emitted (reaches_spec, state_view, state_records). Tie: random "
               "walks over an independent Python re-statement of the automaton with single illegal steps, a transition matrix, "
-              "directed oversubscription cases and every history up to length 3 (thorough 5) over two threads: real "
+              "directed oversubscription cases and every history up to length 5 (thorough 8) over two threads whose only illegal step is the last: real "
               "ovniemu -l vs the Lean reference emulator (verdict, point of rejection, thread.prv types 2/4/6) and vs the "
               "automaton's verdict and timeline."),
         note=TB + "; executing a dead thread is outside the quantified space; task/mark hooks are universally quantified; a thread "
